@@ -1,8 +1,15 @@
 import Yuiv.Drv.C01
 import Yuiv.Model.C06
+import Yuiv.Model.C06Canon
 /-
 Driver for C06: `divvec <c> <a1> <a2> …` (valuation loop of `misc::div_vec`), `ss <d> <w> <r>`, and `kh …`
 as in C01 (Lee / Bar-Natan ranks from the cube reference).
+Canonical cycle construction (Model/C06Canon):
+  `seifert <link>`                 ↦ `s=<bits> circles=<e-e-…|…>`   (`ori_pres_state`, `seifert_circles` in order)
+  `canon <h> <base|-1> <link>`     ↦ `s=<bits> circ=<least edges> z=<bits/mask:coef,…;…> chk=ok`
+where `chk` re-checks on this instance, with the cube reference `KhRef.Cube.d`: d z = 0 for every cycle, every
+crossing joins two differently coloured Seifert circles (hypothesis of the local cycle lemma), and the Seifert
+circles of the walk model are the circles of the cube at the orientation preserving state.
 -/
 namespace Yuiv.Drv.C06
 open Yuiv Yuiv.C06 Yuiv.Drv
@@ -13,8 +20,96 @@ def showRes : Res (Option Nat) → String
   | .panic => "panic"
   | .err => "hang"
 
+section canon
+open Yuiv.KhRef Yuiv.C06Canon Yuiv.Drv.KhLink
+
+def bitsStr (bs : List Bool) : String :=
+  if bs.isEmpty then "_" else String.ofList (bs.map (fun b => if b then '1' else '0'))
+
+def natsStr (sep : String) (xs : List Nat) : String := String.intercalate sep (xs.map toString)
+
+def chainStr (bits : String) (z : Chain) : String :=
+  if z.isEmpty then "0" else String.intercalate "," (z.map (fun (g, a) => s!"{bits}/{g.mask}:{a}"))
+
+/-- `d z` in the cube reference, merged; `none` if the cube is malformed -/
+def dOfChain (c : Cube) (p : Params) (z : Chain) : Option (List (Gen × Int)) := do
+  let mut acc : Std.HashMap Gen Int := {}
+  for (g, a) in z do
+    let ts ← c.d p g
+    for (y, b) in ts do
+      acc := acc.insert y ((acc.get? y).getD 0 + a * b)
+  return acc.toList.filter (fun (_, v) => v != 0)
+
+def sortNat (xs : List Nat) : List Nat := (xs.toArray.qsort (· < ·)).toList
+
+/-- every unresolved crossing touches exactly two Seifert circles and they have different colours -/
+def crossingsBicoloured (l : Link) (cc : List (Path × Colour)) : Bool :=
+  l.all (fun x =>
+    x.ct.isResolved ||
+    (let idx := x.e.toList.map (fun e => (cc.findIdx? (fun pc => pc.1.edges.contains e)).getD cc.length)
+     let ds := idx.eraseDups
+     match ds with
+     | [i, j] => i < cc.length && j < cc.length && (cc[i]!).2 != (cc[j]!).2
+     | _ => false))
+
+def canonReply (l : Link) (h : Int) (base : Option Nat) : String :=
+  match crossingSigns l with
+  | none => "err signs"
+  | some sg =>
+    let signs := sg.toList
+    match canonCyclesAt l signs h base with
+    | .panic => "panic"
+    | .err => "hang"
+    | .ok zs =>
+      let bits := bitsStr (oriPresBits signs)
+      let s := oriPresState signs
+      let cube : Cube := { (mkCube l ⟨h, 0, false⟩) with base := base }
+      let p : Params := ⟨h, 0, base.isSome⟩
+      let circ := (cube.circ[s]!).toList
+      let dzOk := zs.all (fun z => match dOfChain cube p z with | some [] => true | _ => false)
+      let start := match base with | some e => some e | none => firstEdge l
+      let (hypOk, setsOk) : Bool × Bool :=
+        match start with
+        | none => (zs.isEmpty, zs.isEmpty)
+        | some e =>
+          if zs.isEmpty then (true, true) else
+          match coloredSeifertCircles l signs e with
+          | .ok cc =>
+            let a := (cc.map (fun pc => sortNat pc.1.edges)).toArray.qsort (fun x y => x.headD 0 < y.headD 0)
+            (crossingsBicoloured l cc, a.toList == circ.map (·.toList))
+          | _ => (false, false)
+      let chk := if dzOk && hypOk && setsOk then "ok" else s!"fail(dz={dzOk},hyp={hypOk},sets={setsOk})"
+      let zstr := if zs.isEmpty then "none" else String.intercalate ";" (zs.map (chainStr bits))
+      s!"s={bits} circ={natsStr "," (circ.map (fun cs => cs[0]!))} z={zstr} chk={chk}"
+
+def seifertReply (l : Link) : String :=
+  match crossingSigns l with
+  | none => "err signs"
+  | some sg =>
+    match seifertCircles l sg.toList with
+    | .ok cs =>
+      let body := String.intercalate "|" (cs.map (fun c => (if c.closed then "o" else "a") ++ natsStr "-" c.edges))
+      s!"s={bitsStr (oriPresBits sg.toList)} circles={body}"
+    | .panic => "panic"
+    | .err => "hang"
+
+end canon
+
 def handle (t : List String) : String :=
   match t with
+  | "seifert" :: rest =>
+    match Yuiv.Drv.KhLink.parseLink? rest with
+    | some (l, []) => seifertReply l
+    | _ => "bad-request"
+  | "canon" :: h :: base :: rest =>
+    let r : Option String := do
+      let h ← parseInt? h
+      let b ← parseInt? base
+      let (l, tl) ← Yuiv.Drv.KhLink.parseLink? rest
+      if !tl.isEmpty then none
+      if b < -1 then none
+      some (canonReply l h (if b < 0 then none else some b.toNat))
+    r.getD "bad-request"
   | "divvec" :: c :: rest =>
     let r : Option String := do
       let c ← parseInt? c
